@@ -205,13 +205,13 @@ func (interp *Interpreter) pkgDir(goPath string, root, importPath string) (strin
 	rPath := filepath.Join(root, "vendor")
 	dir := filepath.Join(goPath, "src", rPath, importPath)
 
-	if _, err := fs.Stat(interp.opt.filesystem, dir); err == nil {
+	if isDir(interp.opt.filesystem, dir) {
 		return dir, rPath, nil // found!
 	}
 
 	dir = filepath.Join(goPath, "src", effectivePkg(root, importPath))
 
-	if _, err := fs.Stat(interp.opt.filesystem, dir); err == nil {
+	if isDir(interp.opt.filesystem, dir) {
 		return dir, root, nil // found!
 	}
 
@@ -252,7 +252,7 @@ func previousRoot(filesystem fs.FS, rootPath, root string) (string, error) {
 				vendored = strings.TrimPrefix(strings.TrimPrefix(parent, prefix), string(filepath.Separator))
 				break
 			}
-			if !errors.Is(err, fs.ErrNotExist) {
+			if err != nil && !errors.Is(err, fs.ErrNotExist) {
 				return "", err
 			}
 			// stop when we reach GOPATH/src
@@ -325,6 +325,12 @@ func effectivePkg(root, path string) string {
 	}
 
 	return filepath.Join(root, frag)
+}
+
+// isDir returns true if path is a directory: a file is neither a package nor a vendor directory.
+func isDir(filesystem fs.FS, path string) bool {
+	fi, err := fs.Stat(filesystem, path)
+	return err == nil && fi.IsDir()
 }
 
 // isPathRelative returns true if path starts with "./" or "../".
